@@ -166,6 +166,10 @@ struct RenderW {
             }
         }
         pending.clear();
+        if (has_long_exponent(text)) {
+            qsim::set_soft_budget(true);
+            qsim::probe("render.long-exponent-soft-budget");
+        }
         ArenaText<C> buf(text);
         const C     *content = buf.ptr;
         SizeT        length  = (SizeT)buf.len;
@@ -410,6 +414,7 @@ struct ConcW {
             values.push_back(v);
         }
         text.set(tmpl);
+        if (has_long_exponent(tmpl)) qsim::set_soft_budget(true);
         {
             LibCall lc;
             new (cache.p) Tags();
